@@ -188,6 +188,7 @@ func TestVerif_C05_h2meta(t *testing.T) {
 	s.OracleIndependent = false
 	r := s.Rand()
 	hs := newC05hist(s)
+	known := map[string]int{}
 	n := verifh.N(5000, 200000)
 	for c := 0; c < n; c++ {
 		fields, kind := c05fieldList(r)
@@ -373,6 +374,14 @@ func TestVerif_C05_h2meta(t *testing.T) {
 			}
 		default:
 			hs.Count("res-" + strings.SplitN(first, ":", 2)[0] + c05codeOf(strings.TrimSuffix(first, "+f")))
+		}
+		if class != "" {
+			// report a known finding a few times only: the harness keeps a bounded list of
+			// mismatches and a new violation must not drown in known ones
+			if known[class]++; known[class] > 3 {
+				hs.Count("known-finding-not-repeated")
+				continue
+			}
 		}
 		human := fmt.Sprintf("[%s max=%d frags=%d] %s -> fork=%s | ref=%s%s", kind, maxList, len(frags), c05short(c05hex(in)), c05short(impl), c05short(ref), why)
 		if !modelable {
